@@ -61,6 +61,12 @@ Settled(a) ==
     /\ Len(a.unp_pages) = 0 /\ Len(a.tracker.pending_nd) = 0
     /\ Len(a.tracker.live_reads) = 0
 
+\* C14: the region tracker is optimistic - it may believe a full region has space, but it never
+\* reports a region full for an order at which the region's allocator still has a free block
+RegionTrackerOk(a) ==
+  \A r \in 1..Len(a.regions) :
+    \A i \in 1..Len(a.regions[r][2]) : a.regions[r][2][i] > a.regions[r][1]
+
 Check(name, ok, a) == IF ok THEN TRUE ELSE PrintT(<<"INVARIANT", name, a.i, a.run>>) /\ FALSE
 
 AcctOk(a) ==
@@ -71,5 +77,6 @@ AcctOk(a) ==
      /\ Check("AllocRecordsOk", AllocRecordsOk(a), a)
      /\ Check("ReadersRegistered", ReadersRegistered(a), a)
      /\ Check("Settled", Settled(a), a)
+     /\ Check("RegionTrackerOk", RegionTrackerOk(a), a)
 
 =============================================================================
